@@ -555,6 +555,15 @@ impl MarkerExpression {
     }
 }
 
+/// Quotes a marker value, using double quotes if the value contains a single quote.
+fn quoted(value: &str) -> String {
+    if value.contains('\'') {
+        format!("\"{value}\"")
+    } else {
+        format!("'{value}'")
+    }
+}
+
 impl Display for MarkerExpression {
     fn fmt(&self, f: &mut Formatter<'_>) -> std::fmt::Result {
         match self {
@@ -584,13 +593,13 @@ impl Display for MarkerExpression {
                     operator,
                     MarkerOperator::Contains | MarkerOperator::NotContains
                 ) {
-                    return write!(f, "'{value}' {} {key}", operator.invert());
+                    return write!(f, "{} {} {key}", quoted(value), operator.invert());
                 }
 
-                write!(f, "{key} {operator} '{value}'")
+                write!(f, "{key} {operator} {}", quoted(value))
             }
             MarkerExpression::Extra { operator, name } => {
-                write!(f, "extra {operator} '{name}'")
+                write!(f, "extra {operator} {}", quoted(&name.to_string()))
             }
         }
     }
